@@ -41,6 +41,7 @@ type sval struct {
 type Frame struct {
 	foldObls     map[*Spec]*Obligation
 	rgPoints     int
+	rgTop        *Frame
 	inStep       int
 	x            *Exec
 	fn           *ssa.Function
@@ -582,7 +583,7 @@ func (fr *Frame) loadFacts(t types.Type, v Term) {
 }
 
 func (fr *Frame) store(a Addr, v Term, vt types.Type, in ssa.Instruction) {
-	if (a.kind == aMem || a.kind == aPtr) && in != nil && fr.top {
+	if (a.kind == aMem || a.kind == aPtr) && in != nil && fr.rgOwner() != nil {
 		fr.interfere(in)
 		if fr.inStep == 0 {
 			for _, cl := range fr.rgClauses("bystep") {
@@ -1272,17 +1273,42 @@ func hasModifies(ct *Contract) bool {
 // reflexive and transitive. After every write to shared memory (and the ghost updates anchored at it) the
 // two-state predicate G (old() = the state before the write) is proved: it is the other side's rely.
 
+// rgOwner: the frame whose contract carries the rely/guarantee clauses (the function under verification);
+// frames inlined into it (clause `inline f, g`) are interfered with at their shared accesses as well.
+func (fr *Frame) rgOwner() *Frame {
+	if fr.top {
+		if fr.contract == nil {
+			return nil
+		}
+		return fr
+	}
+	return fr.rgTop
+}
+
 func (fr *Frame) rgClauses(kind string) []*Clause {
-	if !fr.top || fr.contract == nil {
+	own := fr.rgOwner()
+	if own == nil || own.contract == nil {
 		return nil
 	}
 	var out []*Clause
-	for _, cl := range fr.contract.Clauses {
+	for _, cl := range own.contract.Clauses {
 		if cl.Kind == kind && cl.Loop < 0 && fr.x.active(cl) {
 			out = append(out, cl)
 		}
 	}
 	return out
+}
+
+// rgInlined: the callee is to be inlined (not used through its sequential contract) in this rely/guarantee run
+func (fr *Frame) rgInlined(name string) bool {
+	for _, cl := range fr.rgClauses("inline") {
+		for _, n := range strings.Split(cl.Text, ",") {
+			if strings.TrimSpace(n) == name {
+				return true
+			}
+		}
+	}
+	return false
 }
 
 func (fr *Frame) interfere(in ssa.Instruction) {
@@ -1293,22 +1319,26 @@ func (fr *Frame) interfere(in ssa.Instruction) {
 	for _, cl := range relies {
 		fr.x.externs[fmt.Sprintf("RELY in %s (interference by other threads at every shared access; it is the other side's proved guarantee): %s", fr.fn.Name(), cl.Text)] = true
 	}
+	own := fr.rgOwner()
 	prev := fr.cur
-	fr.cur = prev.clone()
-	vars := fr.loopVars(prev)
+	nxt := prev.clone()
+	savedOwn := own.cur
+	own.cur = prev
+	vars := own.loopVars(prev)
 	for _, cl := range fr.rgClauses("interference") {
 		for _, loc := range cl.Locs {
-			saved := fr.cur
-			fr.cur = prev
-			fr.havocLoc(loc, prev, saved, vars)
-			fr.cur = saved
+			own.cur = prev
+			own.havocLoc(loc, prev, nxt, vars)
 		}
 	}
+	own.cur = nxt
 	for _, cl := range relies {
-		t := fr.evalSpecBool(cl.Expr, fr.cur, prev, nil)
-		fr.c().assume(imp(fr.cur.reach, t))
+		t := own.evalSpecBool(cl.Expr, nxt, prev, nil)
+		fr.c().assume(imp(nxt.reach, t))
 	}
-	fr.rgPoints++
+	own.cur = savedOwn
+	fr.cur = nxt
+	own.rgPoints++
 }
 
 // sharedWrite runs f (one instruction that may write shared memory) and proves the guarantee for that step.
@@ -1329,9 +1359,10 @@ func (fr *Frame) sharedWrite(in ssa.Instruction, what string, f func()) {
 		return
 	}
 	pos := fr.x.e.prog.Fset.Position(in.Pos())
+	own := fr.rgOwner()
 	for _, cl := range gs {
 		for _, cj := range splitConj(cl.Expr) {
-			fr.proveSpec("guarantee", fmt.Sprintf("guarantee holds for the step %s at %s:%d: %s", what, filepath.Base(pos.Filename), pos.Line, cj.String()), cl, cj, fr.cur, before, nil)
+			own.proveSpec("guarantee", fmt.Sprintf("guarantee holds for the step %s at %s:%d: %s", what, filepath.Base(pos.Filename), pos.Line, cj.String()), cl, cj, fr.cur, before, nil)
 		}
 	}
 }
@@ -1369,7 +1400,7 @@ func isAtomicCall(in ssa.Instruction) bool {
 }
 
 func (fr *Frame) instr(in ssa.Instruction) {
-	if fr.top && fr.contract != nil && len(fr.rgClauses("rely"))+len(fr.rgClauses("guarantee")) > 0 {
+	if fr.rgOwner() != nil && len(fr.rgClauses("rely"))+len(fr.rgClauses("guarantee")) > 0 {
 		if isAtomicCall(in) {
 			fr.interfere(in)
 			name := calleeName(in.(*ssa.Call).Common())
@@ -1393,7 +1424,7 @@ func (fr *Frame) instr(in ssa.Instruction) {
 			fr.sharedWrite(in, name, func() { fr.instr0(in) })
 			return
 		}
-		if _, ok := in.(*ssa.Return); ok {
+		if _, ok := in.(*ssa.Return); ok && fr.top {
 			fr.interfere(in)
 		}
 	}
@@ -1555,8 +1586,26 @@ func (fr *Frame) instr0(in ssa.Instruction) {
 			vals = append(vals, fr.val(r))
 		}
 		if fr.top {
-			fr.cur = fr.cur.clone()
+			before := fr.cur
+			fr.cur = before.clone()
 			fr.ghostAtReturn(vals)
+			if gs := fr.rgClauses("guarantee"); len(gs) > 0 && fr.contract != nil {
+				hasRet := false
+				for _, ac := range fr.contract.AtCalls {
+					if ac.AtReturn && fr.x.active(&Clause{Props: ac.Props}) {
+						hasRet = true
+					}
+				}
+				if hasRet {
+					// the ghost updates anchored at the return are a step of this thread as well
+					pos := fr.x.e.prog.Fset.Position(s.Pos())
+					for _, cl := range gs {
+						for _, cj := range splitConj(cl.Expr) {
+							fr.proveSpec("guarantee", fmt.Sprintf("guarantee holds for the ghost step at the return %s:%d: %s", filepath.Base(pos.Filename), pos.Line, cj.String()), cl, cj, fr.cur, before, nil)
+						}
+					}
+				}
+			}
 		}
 		fr.rets = append(fr.rets, retInfo{fr.cur, vals})
 		fr.checkConstructed(s)
@@ -2506,7 +2555,7 @@ func (fr *Frame) ghostAtReturn(vals []Term) {
 		return
 	}
 	for _, ac := range fr.contract.AtCalls {
-		if !ac.AtReturn {
+		if !ac.AtReturn || !fr.x.active(&Clause{Props: ac.Props}) {
 			continue
 		}
 		vars := map[string]sval{}
